@@ -11,6 +11,8 @@ git -C ${MC:-/tmp/mc}/repo checkout -q -- . && git -C ${MC:-/tmp/mc}/repo checko
 rsync -a --delete --exclude harness/target --exclude harness/scratch --exclude translator/target --exclude '.lock-*' --exclude replay --exclude evidence /verif/ ${MC:-/tmp/mc}/verif/ || true
 mkdir -p ${MC:-/tmp/mc}/verif/replay ${MC:-/tmp/mc}/verif/evidence
 sed -i "s|path = \"/repo\"|path = \"${MC:-/tmp/mc}/repo\"|" ${MC:-/tmp/mc}/verif/harness/Cargo.toml
+# any hard-coded "/repo…" path inside harness sources must point at the private worktree too
+grep -rl '"/repo' ${MC:-/tmp/mc}/verif/harness/src 2>/dev/null | xargs -r sed -i "s|\"/repo|\"${MC:-/tmp/mc}/repo|g"
 export IQE_REPO=${MC:-/tmp/mc}/repo
 cd ${MC:-/tmp/mc}/verif
 if [ "$patch" != "/dev/null" ]; then git -C ${MC:-/tmp/mc}/repo apply "$patch"; fi
